@@ -320,6 +320,17 @@ fn op_parse(case: &Value) -> Value {
         Err(_) => return json!({"class": "notutf8"}),
     };
     if case.get("summary").and_then(|b| b.as_bool()).unwrap_or(false) {
+        if let Some(kb) = case.get("stack_kb").and_then(|k| k.as_u64()) {
+            // parse on a thread with a stack of the given size (tokio's worker threads have 2 MiB)
+            let mut inner = case.clone();
+            inner.as_object_mut().unwrap().remove("stack_kb");
+            return std::thread::Builder::new()
+                .stack_size(kb as usize * 1024)
+                .spawn(move || op_parse(&inner))
+                .unwrap()
+                .join()
+                .unwrap_or_else(|_| json!({"class": "harness-panic"}));
+        }
         // large inputs: report a checksum of the canonical dump instead of megabytes of JSON
         let r = std::panic::catch_unwind(|| match Interface::try_from(text.as_str()) {
             Ok(i) => {
